@@ -585,6 +585,30 @@ def memo_bases():
                  Rule("N", Clo(Call("F", "x"))),
                  Rule("F", Lit("b"), position=True)],
                 ["a", "b", " "], ["P", "Q", "N"]))
+    # a memoized rule that only forwards to another memoized rule and carries a check of its own: the check belongs to
+    # the memoized body (no probe on the forwarding rule: its whole definition is the one call)
+    fwd = Rule("F", Call("B", "@"), no_skip_ws=True,
+               checks=[{"o": "always", "path": "@chk_fwd", "name": "@chk_fwd",
+                        "rust": "pub fn chk_fwd(v: &B) -> bool { logged(\"chk_fwd\", v, true) }"}])
+    fwd.keep_memo = True
+    out.append(("forwarding_memo_with_check",
+                [Rule("S", Choice(Seq(Call("F", "f"), Lit("x")), Seq(Call("F", "f"), Lit("y")), Seq(Call("F", "f"), Lit("z")), Call("F", "f")),
+                      export=True, no_skip_ws=True),
+                 fwd, Rule("B", Seq(Lit("a"), Opt(Lit("a"))), no_skip_ws=True, position=True)],
+                ["a", "x", "y", "z"], ["B"]))
+    # a user function that itself runs a generated parser (a parse inside a parse, on the same thread)
+    out.append(("nested_parse_in_extern",
+                [Rule("S", Choice(Seq(Call("M", "m"), Lit("x")), Seq(Call("M", "m"), Opt(Lit("y")), Opt(Call("M", "n")))), export=True, no_skip_ws=True, position=True),
+                 Rule("M", Seq(Lit("<"), Call("V", "v")), no_skip_ws=True, position=True),
+                 ExternRule("V", {"o": "digits", "path": "@ext_nested", "nullable": False,
+                                  "rust": "pub fn ext_nested(s: &str) -> Result<(String, usize), &'static str> { use peginator::PegParser; "
+                                          "let n = s.bytes().take_while(|b| b.is_ascii_digit()).count(); "
+                                          "let r = if n == 0 { Err(\"expected digits\") } else { match Inner::parse(&s[..n]) { "
+                                          "Ok(_) => Ok((s[..n].to_string(), n)), Err(_) => Err(\"the inner parse failed\") } }; "
+                                          "log_ext_call(\"ext_nested\", s, &r); r }"}),
+                 Rule("Inner", Seq(Clo(Call("W", "ws"), plus=True), Eoi()), export=True, no_skip_ws=True, position=True),
+                 Rule("W", Range("0", "9"), no_skip_ws=True, position=True, memoize=True)],
+                ["<", "1", "x", "y"], ["S", "M"]))
     # a memoized rule that can match nothing, asked twice at the very end of the input (and once in the middle)
     out.append(("nullable_memo_at_end",
                 [Rule("S", Choice(Seq(Lit("a"), Call("M", "m"), Lit("!")), Seq(Lit("a"), Call("M", "m"), Opt(Call("N", "n"))),
@@ -638,10 +662,24 @@ def fam_memo(tier, seed):
             rs, probes = add_probes(copy.deepcopy(rules), memoizable)
             for r in rs:
                 if r.kind == "rule":
-                    r.memoize = r.name in sub
-            g = Grammar("memo_%04d" % len(out), rs, root="S", maxlen=maxlen,
+                    r.memoize = r.name in sub or bool(getattr(r, "keep_memo", False))
+            gid_ = "memo_%04d" % len(out)
+            user_rs, memo_checks = [], {}
+            for r in rs:
+                if r.kind == "extern" and r.fn["path"].startswith("@"):
+                    r.fn = dict(r.fn, path="crate::cases::g_%s::user::%s" % (gid_, r.fn["path"][1:]))
+                    user_rs.append(r.fn["rust"])
+                for c in getattr(r, "checks", []):
+                    if c["path"].startswith("@"):      # a check function generated next to the grammar
+                        fn_ = c["path"][1:]
+                        c["path"] = c["name"] = "crate::cases::g_%s::user::%s" % (gid_, fn_)
+                        user_rs.append(c["rust"])
+                        if r.memoize:
+                            memo_checks[r.name] = fn_
+            g = Grammar(gid_, rs, root="S", maxlen=maxlen,
                         meta={"shape": name + "/" + "+".join(sub), "base": name, "memo": list(sub), "probes": probes,
-                              "nrules": len(memoizable), "all_memo": len(sub) == len(memoizable)})
+                              "nrules": len(memoizable), "all_memo": len(sub) == len(memoizable) and not memo_checks,
+                              "memo_checks": memo_checks, "user_rs": "\n".join(user_rs)})
             g.alpha = alpha
             if name == "nested_exp":
                 g.extra = [list("a" * 7), list("a" * 6 + "b")] if tier == "quick" else [list("a" * 10), list("a" * 9 + "c")]
@@ -842,6 +880,13 @@ def fam_pos(tier, seed):
              position=True, leftrec=True),
         Rule("N", Lit("n"), position=True)], root="E", maxlen=maxlen + 1,
         alpha=["n", "+", " "], meta={"shape": "leftrec_replay"}))
+    g = Grammar("pos_%04d" % len(out), [
+        Rule("S", Seq(Lit("<"), Call("E", "e"), Opt(Call("E", "f")), Lit(">")), export=True, position=True),
+        Rule("E", Choice(Seq(Call("E", "l", boxed=True), Lit("+"), Call("N", "r")), Call("N", "r")), position=True, leftrec=True),
+        Rule("N", Lit("n"), position=True)], root="S", maxlen=3,
+        alpha=["n", "+", " ", "<", ">"], meta={"shape": "leftrec_called_after_whitespace"})
+    g.extra = [list(x) for x in ("< n + n>", "<  n+n >", "<n+n  n>", "< n +n+ n >", "<   n>", "< n+ n n +n>")]
+    out.append(g)
     # offsets beyond 32 bits: an extern rule skips 2^32 + 5 bytes in one step, the ranges that follow must be exact
     g = Grammar("pos_%04d" % len(out), [
         Rule("S", Seq(Call("X", "x"), Call("T", "t"), Call("U", "u"), Opt(Call("M", "m"))), export=True, no_skip_ws=True, position=True),
@@ -1282,6 +1327,14 @@ def fam_bad(tier, seed):
                                          Rule("L", Choice(Seq(Call("L"), Lit("a")), Lit("b")), leftrec=True, string=True)],
            "code" if ok else "error", derives=",".join(dl) if dl else "", derives_list=dl)
         mk("R8_plain_%s" % dn, [Rule("S", Call("A", "x"), export=True), A()], "code", derives=",".join(dl) if dl else "", derives_list=dl)
+    # R8 again: only `Clone` itself counts, not a trait whose name ends in it or a path to it
+    for dn, dl in (("dynclone", ["Debug", "DynClone"]), ("path_lookalike", ["Debug", "dyn_clone::DynClone"]), ("unclone", ["Unclone", "Debug"]),
+                   ("clone_path", ["Debug", "std::clone::Clone"])):
+        mk("R8_memoize_lookalike_%s" % dn, [Rule("S", Call("A", "x"), export=True), Rule("A", Lit("a"), memoize=True)], "error",
+           derives=",".join(dl), derives_list=dl)
+        mk("R8_leftrec_lookalike_%s" % dn, [Rule("S", Call("E", "x"), export=True),
+                                           Rule("E", Choice(Seq(Call("E", "l", boxed=True), Lit("+")), Lit("n")), leftrec=True)], "error",
+           derives=",".join(dl), derives_list=dl)
     # R13 entries of the derive list: trait names and paths to traits are fine, anything else is an error (not a panic)
     for dn, dl, ok in (("path", ["Debug", "Clone", "std::cmp::PartialEq"], True), ("absolute_path", ["::core::fmt::Debug", "Clone"], True),
                        ("crate_path", ["Clone", "crate::my::Trait"], True), ("with_space", ["Debug Clone"], False),
@@ -1613,6 +1666,11 @@ def fam_types(tier, seed):
                    Rule("OvE", Choice(Call("Unit", "@"), Call("Str", "@"), Call("char", "@"))),
                    Rule("OvB", Choice(Call("Unit", "@", boxed=True), Call("Pos", "@"))),
                    Rule("OvO", Opt(Call("Unit", "@"))), Rule("OvV", Clo(Call("Unit", "@", boxed=True)))]),
+        ("boxed_builtin_char", [Rule("S", Seq(Call("char", "c", boxed=True), Opt(Call("char", "o", boxed=True)), Clo(Call("char", "v", boxed=True)),
+                                              Call("O", "ov"), Call("M", "m")), export=True),
+                                Rule("O", Seq(Lit("("), Call("char", "@", boxed=True), Lit(")"))),
+                                Rule("M", Choice(Call("char", "x", boxed=True), Call("Unit", "x")))
+                                , Rule("Unit", Lit("u"))]),
         ("recursive_box", [Rule("S", Seq(Lit("("), Opt(Call("S", "inner", boxed=True)), Lit(")"), Clo(Call("S", "more"))), export=True)]),
         ("recursive_enum", [Rule("E", Choice(Call("Add", "@", boxed=True), Call("Num", "@")), export=True),
                             Rule("Add", Seq(Lit("+"), Call("E", "l"), Call("E", "r"))), Rule("Num", Lit("1"), string=True)]),
